@@ -25,7 +25,7 @@ ID = "C10"
 TARGETS = ["Proofs.C10"]
 GEN_PREFIXES = ["clean."]
 THEOREMS = {"Proofs.C10": ["VerifModel.C10." + t for t in [
-    "C10_clean_assemble", "C10_same_dataset_general", "C10_same_dataset_partial", "C10_elev_default_differs",
+    "C10_clean_assemble", "C10_same_dataset",
     "C10_text2nc", "C10_detect", "C10_valid_iff", "C10_optional_absent", "C10_optional_present"]]}
 TRUSTED_BASE = [
     "Lean 4.33 kernel; axioms propext, Classical.choice, Quot.sound only",
@@ -42,9 +42,8 @@ TRUSTED_BASE = [
 ASSUMPTIONS = [
     "WF table: no stored number is -999 or above 1e30 (those ARE the missing-value encodings); other fields have names that "
     "the reader does not reserve; coordinates are not missing",
-    "altitude present (known finding nc-elev-default: without it the NetCDF reader gives NaN, the text reader 0)",
     "text2nc: float32-representable data, integer location ids, obs and fcst columns present, units in display form "
-    "($..$ or %); the script omits ensemble members and x0/x1 (known findings)",
+    "($..$ or %)",
     "files without location ids: locations are identified by their metadata (ids are synthetic in both readers)",
 ]
 RULE = ("nc.read: generated tables (1-3 times / lead times / locations, unsorted dimension values, every optional variable "
@@ -60,9 +59,9 @@ EXHAUSTIVE = {"quick": False, "thorough": False}
 LEVEL_TEXT = ("Lean theorems: every attribute of the assembled NetCDF input is util.clean of the stored variable (masked, NaN, "
               "-999, >1e30 -> NaN, anything else unchanged: C04_clean); for every well-formed table T and every choice of "
               "missing-value encodings the reader's dataset for the documented NetCDF layout of T equals Spec.datasetOf T in "
-              "all attributes (altitude present; the elevation default is a proved, recorded discrepancy); reading back what "
-              "text2nc writes returns the dataset exactly for every rounding that leaves its numbers alone, minus the "
-              "listed omissions; the get_input decision table over content predicates (the function has no name argument); "
+              "all attributes (absent lat / lon / altitude read 0); reading back what text2nc writes returns the dataset "
+              "exactly, in every attribute incl. ensemble members and x0 / x1, for every rounding that leaves its numbers "
+              "alone; the get_input decision table over content predicates (the function has no name argument); "
               "required dims/vars and the defaults of absent optional variables. Partial: the byte level of NetCDF, "
               "float32 rounding and the text reader (C09) are outside.")
 TECHNIQUE = ("Lean 4 proof over a hand-written model of the NetCDF reader and text2nc (clean regenerated from source) + "
@@ -676,7 +675,7 @@ def impl_text2nc(op):
             # the same comparison against what the REAL text reader sees (float32 precision = exact for this data)
             ktx, itx = get_input(src)
             tx = from_input(itx)
-            d = [m for s, m in diff_datasets(tx, res, skip=("ens", "x0", "x1", "units$"))
+            d = [m for s, m in diff_datasets(tx, res, skip=("units$",))
                  if not (s.get("field") in ("obs", "fcst") and tx[s["field"]] is None)]
             if d:
                 line += " !text-reader-vs-output: " + d[0]
